@@ -1039,6 +1039,7 @@ func Tour(g *Graph, run *evid.Run, rng *rand.Rand, maxEdges int) (Stats, error) 
 // only walked to reach them (and are still compared when walked).
 func TourFiltered(g *Graph, run *evid.Run, rng *rand.Rand, maxEdges int, want func(*Edge) bool) (Stats, error) {
 	var st Stats
+	divSteps := 0
 	covered := make([]bool, len(g.Edges))
 	hasIdle := false
 	for _, e := range g.Edges {
@@ -1133,6 +1134,15 @@ func TourFiltered(g *Graph, run *evid.Run, rng *rand.Rand, maxEdges int, want fu
 				if strings.HasPrefix(d.Key, "hang:") {
 					st.Hangs++
 				}
+			}
+			if len(divs) > 0 {
+				divSteps++
+			}
+			if divSteps >= 40 {
+				// the code under test diverges all over this graph: what has been
+				// reported is evidence enough, and every further target would have
+				// to be reached through the same divergent steps again
+				return st, nil
 			}
 			if st.Hangs >= 3 || drv.TooManyHangs() {
 				// the server under test hangs: every further occurrence costs a
